@@ -14,6 +14,13 @@ sys.path.insert(0, os.path.dirname(os.path.abspath(__file__)))
 import common  # noqa: E402
 
 
+def _fault():
+    import faulthandler, os, sys
+    t = os.environ.get("VERIF_FAULT")
+    if t:
+        faulthandler.dump_traceback_later(int(t), repeat=True, file=sys.stderr)
+
+
 def main():
     if os.environ.get("PYTHONHASHSEED") != "0":  # reproducible generation: every run uses hash seed 0
         os.environ["PYTHONHASHSEED"] = "0"
@@ -34,6 +41,7 @@ def main():
     os.environ["PYTHONPATH"] = str(common.REPO / "src")
     os.environ[common.GUARD] = "1"
     sys.path.insert(0, str(common.REPO / "src"))
+    _fault()
     ck = common.Check(a.pid, tier, seed)
     try:
         mod = importlib.import_module("props." + a.pid)
